@@ -68,7 +68,10 @@ SPEC = {
             "public call running its own transaction: set_beta/set_betas); families: read-modify-write, link pairs, queries vs edits, "
             "sews around one vertex, 3-D sews, 3-sew vs 1-link of the face, vertex insertion vs edits of its spare darts, set_betas vs "
             "row readers, remeshing kernels vs sews/unsews/kernels on neighbouring triangles (a kernel's retry() really blocks or "
-            "restarts under the scheduler), random blocks; every schedule with <= P preemptions "
+            "restarts under the scheduler), a kernel call that hangs by itself on a valid map (hang_scenarios, finding D15h: a blocked "
+            "transaction that answers `retry` when run alone on the initial map is a violation, one that answers `retry` only after other "
+            "commits was handed an invalid argument and is counted as deadlocks_reproduced_sequentially), random blocks; every schedule "
+            "with <= P preemptions "
             "(P = 2 quick, 3 thorough; deepened to full DFS for tiny scenarios) plus seeded random and PCT(d=3) schedules for the bigger "
             "ones is executed on the real crates; per distinct outcome (commit order, results, final snapshot): no panic/hang/deadlock; "
             "results and snapshot = sequential hcimpl run of the committed transactions in commit order (else in some other order); "
@@ -602,6 +605,21 @@ def remesh_random(rng, count, params=None, nthreads=(2,)):
     return out
 
 
+def hang_scenarios():
+    """a kernel that waits forever BY ITSELF on a valid map (finding D15h): collapse_edge on some edges of an anchored split grid
+    computes NULL_VERTEX_ID as the new vertex and calls is_orbit_orientation_consistent(NULL), which reads the undefined vertex 0
+    and returns StmError::Retry; inside atomically_with_err the call waits for a change that nobody has a reason to make."""
+    import props.c15 as c15
+    unit = normalize_init(["grid 2 1 224 ncl 0 0 1 1 1 1"], mask=224) + c15.UNIT_ANCH
+    two = normalize_init(["grid 2 1 224 ncl 0 0 1 2 1 1"], mask=224) + c15.TWO_ANCH
+    p = {"preempt": 2, "cap": 2000}
+    return [
+        Scenario("hang-collapse-alone", unit, [[["collapse 4"]]], p, tags={"hang"}),
+        Scenario("hang-collapse-vs-vertex-rw", unit, [[["collapse 4"]], [["rv 1", "wv 1 0 0"]]], p, tags={"hang"}),
+        Scenario("hang-collapse-1x2-vs-vertex-rw", two, [[["collapse 7"]], [["rv 12", "wv 12 1 2"], ["rv 1"]]], p, tags={"hang"}),
+    ]
+
+
 def lockorder_scenarios():
     """commit() takes the locks of its variables one at a time: transactions that write the same variables in different
     program orders (mirror of the Lean examples wxy / wyx of Props/C07Live.lean), a three-variable cycle, and writers
@@ -622,8 +640,8 @@ def lockgran_scenarios(seed, quick):
     """the subset explored at LOCK granularity (`lockgran=1`: decision points before every lock acquisition of commit(), before
     its write-back and before its publish phase; a committing thread is preempted while it holds parking_lot locks)"""
     rng = random.Random(seed + 7)
-    tiny = {"preempt": 2 if quick else 3, "cap": 40000 if quick else 400000, "full_cap": 40000 if quick else 400000}
-    mid = {"preempt": 2 if quick else 3, "cap": 40000 if quick else 400000}
+    tiny = {"preempt": 2 if quick else 3, "cap": 40000 if quick else 200000, "full_cap": 40000 if quick else 200000}
+    mid = {"preempt": 2 if quick else 3, "cap": 40000 if quick else 200000}
     out = []
     for s in lockorder_scenarios() + rmw_scenarios() + link_scenarios():
         if any(op.split()[0] == "rmtx" for th in s.threads for tx in th for op in tx):
@@ -661,7 +679,7 @@ def scenarios(tier, seed):
     mid = {"preempt": 3, "cap": 300000 if quick else 1000000}
     deep = {"preempt": 3 if quick else 4, "cap": 300000 if quick else 1500000}
     hand = rmw_scenarios() + link_scenarios() + query_scenarios() + fan_scenarios() + three_d_scenarios() + d4_scenarios() + d3_scenarios() \
-        + setbs_scenarios() + force_scenarios() + remesh_scenarios()
+        + setbs_scenarios() + force_scenarios() + remesh_scenarios() + hang_scenarios()
     for s in hand:
         if s.name in DEEP:
             s.params.update(deep)
@@ -810,6 +828,12 @@ def explain_errors(sc, o, order):
     return unexplained
 
 
+def alone_answer(init, unit):
+    """answer of hcimpl to one unit of work run alone on the initial map"""
+    out = run_impl(list(init) + unit_lines(unit))
+    return out[-1] if out else "<missing>"
+
+
 def explain_deadlock(sc, o, order, flat):
     """A kernel's retry() waits until some variable it read changes.  The wait is not a concurrency defect when the same
     transaction also answers `retry` in the one-at-a-time execution (it was handed arguments that are invalid in that
@@ -818,6 +842,12 @@ def explain_deadlock(sc, o, order, flat):
     blocked = [(t, len(txs)) for t, txs in enumerate(o["results"]) if len(txs) < len(sc.threads[t])]
     if not blocked:
         return "no unfinished transaction found"
+    # a transaction that answers `retry` when it runs ALONE on the initial map waits forever by itself on a valid input:
+    # that is not an invalid argument created by the other threads but a violation of "all threads terminate"
+    for t, k in blocked:
+        if alone_answer(sc.init, sc.threads[t][k]) in ("tx retry", "retry"):
+            return (f"hang-alone: thread {t} transaction {k} {sc.threads[t][k]} waits forever in a blocking retry although it answers "
+                    f"`retry` when it is run alone, first, on the initial map (no other transaction is needed to make it hang)")
     if sorted(tk for tk, r in flat.items() if committed_result(r)) != sorted(order) or any(r in ("tx panic", "panic") for r in flat.values()):
         return "results and commit order disagree"
     res, _, _ = parse_seq(sc, order, run_impl(seq_script(sc, order)))
@@ -845,6 +875,9 @@ def oracle(case, li):
         if why is None:
             STATS["deadlocks_reproduced_sequentially"] = STATS.get("deadlocks_reproduced_sequentially", 0) + 1
             return None
+        if why.startswith("hang-alone"):
+            STATS["hangs_alone"] = STATS.get("hangs_alone", 0) + 1
+            return why
         return "deadlock: every unfinished thread waits for a lock or in a blocking retry; " + why
     if o["status"] != "ok":
         return f"{o['status']}: the schedule ends in {o['status']}"
@@ -1016,10 +1049,39 @@ def d3_signature(v):
         return False
 
 
+def d15h_signature(v):
+    """D15h: the schedule ends with every unfinished thread in a blocking retry; exactly one transaction is unfinished; it is the
+    single kernel call `collapse <edge>`; re-run alone on the initial map of the scenario it answers `retry` (recomputed here
+    with hcimpl from the raw replay payload).  Any other hang / deadlock is not matched."""
+    if v.get("kind") != "oracle":
+        return False
+    rp = v.get("replay", {})
+    if not str(rp.get("oracle_failure", "")).startswith("hang-alone"):
+        return False
+    try:
+        o = rp["outcome"]
+        if o["status"] not in ("deadlock", "hang"):
+            return False
+        init, threads = _threads_of(rp["scenario_lines"])
+        blocked = [(t, len(txs)) for t, txs in enumerate(o["results"]) if len(txs) < len(threads[t])]
+        if len(blocked) != 1:
+            return False
+        t, k = blocked[0]
+        unit = threads[t][k]
+        if len(unit) != 1 or unit[0].split()[0] != "collapse" or len(unit[0].split()) != 2:
+            return False
+        return alone_answer(init, unit) in ("tx retry", "retry")
+    except Exception:
+        return False
+
+
 def matches(known, v):
-    """no known finding for C07: both non-transactional-read defects are repaired in /repo (cc2bcd4: transactional is_free in
-    the vertex insertion kernels, f79acf8: orbit_transac in three_sew/three_unsew).  The scenarios that exhibited them
-    (d3_scenarios, d4_scenarios) stay in every tier; d3_signature / d4_signature only group the violations of a regression."""
+    """D15h (collapse_edge hangs by itself on some valid anchored meshes).  The two non-transactional-read defects the explorer
+    found earlier are repaired in /repo (cc2bcd4: transactional is_free in the vertex insertion kernels, f79acf8: orbit_transac in
+    three_sew/three_unsew): the scenarios that exhibited them (d3_scenarios, d4_scenarios) stay in every tier as regression
+    targets; d3_signature / d4_signature only group the violations of a regression."""
+    if known.get("matcher", {}).get("signature") == "collapse-edge-blocking-retry-alone-on-initial-map":
+        return d15h_signature(v)
     return False
 
 
@@ -1117,6 +1179,7 @@ def check_scenarios(binary, scs, jobs=4):
     st["unexplained_error_examples"] = STATS.get("unexplained_error_examples", [])
     st["calls_with_several_commits"] = STATS.get("calls_with_several_commits", 0)
     st["deadlocks_reproduced_sequentially"] = STATS.get("deadlocks_reproduced_sequentially", 0)
+    st["hangs_alone"] = STATS.get("hangs_alone", 0)
     samples = []
     for s in scs[:400]:
         r = res[s.name]
@@ -1130,7 +1193,7 @@ def dedupe(violations):
     """one violation per known-finding class (the others of the class are the same defect on other schedules/scenarios)"""
     seen, out = set(), []
     for v in violations:
-        key = "D4" if d4_signature(v) else "D3" if d3_signature(v) else None
+        key = "D4" if d4_signature(v) else "D3" if d3_signature(v) else "D15h" if d15h_signature(v) else None
         if key and key in seen:
             continue
         seen.add(key)
@@ -1164,7 +1227,7 @@ def run(tier, seed):
                                 "replay": {"theorem_or_correspondence": "coverage of the schedule exploration"}})
     res = hv.merge_results([("schedule exploration: every distinct outcome vs sequential runs (hcimpl) and the model (hcmodel)", r)])
     for k in ("sched", "serializable_in_commit_order", "serializable_in_other_order_only", "error_results", "unexplained_errors",
-              "unexplained_error_examples", "vendor_marked_lines", "calls_with_several_commits", "deadlocks_reproduced_sequentially"):
+              "unexplained_error_examples", "vendor_marked_lines", "calls_with_several_commits", "deadlocks_reproduced_sequentially", "hangs_alone"):
         res["stats"][k] = r["stats"][k]
     res["stats"]["exhaustive"] = False
     res["notes"].append(
@@ -1231,12 +1294,10 @@ REPO_MUTANTS = [
     ("honeycomb-kernels/src/remeshing/cut.rs",
      """        (Some(v1), Some(v2)) => Vertex2::average(&v1, &v2),
         _ => retry()?,
-    };
-    map.write_vertex(t, nd1, new_v)?;""",
+    };""",
      """        (Some(v1), Some(v2)) => Vertex2::average(&v1, &v2),
         _ => unreachable!(),
-    };
-    map.write_vertex(t, nd1, new_v)?;""", "remesh"),
+    };""", "remesh"),
 ]
 
 
